@@ -102,23 +102,31 @@ def _mentions_bound_var(t):
 
 
 _CTX = {}
+_APPS_CACHE = {}      # id of a top-level term -> (the term, its py_* applications): hypotheses are shared by many obligations
+
+
+def _py_apps(t):
+    hit = _APPS_CACHE.get(t.get_id())
+    if hit is not None and hit[0].eq(t):
+        return hit[1]
+    apps = [x for x in _subterms([t]) if z3.is_app(x) and x.num_args() > 0 and x.decl().name().startswith("py_")]
+    if len(_APPS_CACHE) > 200000:
+        _APPS_CACHE.clear()
+    _APPS_CACHE[t.get_id()] = (t, apps)
+    return apps
 
 
 def instantiate_axioms(terms, rounds=2):
     """Ground instances of the schema facts for every UF application in `terms`."""
     # regular-expression facts about digit strings are only added to queries that talk about digits at all
-    _CTX["digits"] = any(z3.is_app(t) and t.decl().name() in ("py_isdigit", "py_int_ok", "py_int_of", "py_isascii") for t in _subterms(list(terms)))
+    _CTX["digits"] = any(x.decl().name() in ("py_isdigit", "py_int_ok", "py_int_of", "py_isascii") for t in terms for x in _py_apps(t))
     facts = []
     done = set()
     cur = list(terms)
     for _ in range(rounds):
         new = []
-        for t in _subterms(cur):
-            if not z3.is_app(t) or t.num_args() == 0:
-                continue
+        for t in (x for top in cur for x in _py_apps(top)):
             name = t.decl().name()
-            if not name.startswith("py_"):
-                continue
             key = t.get_id()
             if key in done:
                 continue
